@@ -63,8 +63,11 @@ class RelativeSequence(AbstractSequence):
         absolute_sequence.normalise_absolute()
 
         if not cap_message_exists:
+            # Keep integral end times as ints, but do not cut a fractional end time (e.g., after scaling by 0.5)
+            cap_time = int(current_point_in_time) if current_point_in_time == int(current_point_in_time) \
+                else current_point_in_time
             absolute_sequence.add_message(
-                Message(message_type=MessageType.INTERNAL, channel=default_channel, time=int(current_point_in_time)))
+                Message(message_type=MessageType.INTERNAL, channel=default_channel, time=cap_time))
 
         return absolute_sequence
 
